@@ -9,9 +9,9 @@ from ..boolform import equivalent_tests
 from ..model import AnalysisError, norm_src, walk_no_nested
 from ..pathq import fq
 from ..report import Ctx
-from ..symeval import BV, Obj, Opaque, SymEval, ALL
+from ..symeval import BV, Obj, Opaque, SymEval, Tok, ALL
 from ..tables import compare_table, pretty_assign, oracle_values
-from .common import wcparse_variants
+from .common import api_table, bind_call, decided_bits, is_result_of, passes_through, wcparse_variants
 
 WP = '_wcparse'
 
@@ -22,95 +22,138 @@ def _kwargs(c: ast.Call) -> dict[str, str]:
 
 # ================================================================================================ C16
 def rule_pathlib_forwarding(ctx: Ctx, rule: str) -> None:
-    ctx.text(rule, 'composition and forwarding of the pathlib methods: match = globmatch(flags | _EXTMATCHBASE); rglob = glob(flags | '
-                   '_EXTMATCHBASE); globmatch and full_match are the same glob.globmatch call on _translate_path() with '
-                   '_translate_flags(flags); Path.glob calls glob.iglob(root_dir=str(self)) with _translate_flags(flags | '
-                   '_NOABSOLUTE) | _PATHLIB (| SCANDOTDIR iff requested) and yields self.joinpath(filename); patterns, limit and '
-                   'exclude are forwarded everywhere')
+    ctx.text(rule, 'composition and forwarding of the pathlib methods, read off their decision tables with call events (argument '
+                   '*values*, so locals, keyword/positional spelling and statement layout are free): match = globmatch(flags | '
+                   '_EXTMATCHBASE); rglob = glob(flags | _EXTMATCHBASE); globmatch and full_match are the same glob.globmatch call '
+                   'on _translate_path() with _translate_flags(flags); Path.glob does nothing unless is_dir(), else calls '
+                   'glob.iglob(root_dir=str(self)) with _translate_flags(flags | _NOABSOLUTE) | _PATHLIB (| SCANDOTDIR iff '
+                   'requested) and yields self.joinpath(<each result>); patterns, limit and exclude are forwarded everywhere')
     repo = ctx.repo
     n = 0
-
-    def single_call(qn: str, callee: str) -> ast.Call | None:
-        fi = repo.func('pathlib', qn)
-        cs = [c for c in walk_no_nested(fi.node) if isinstance(c, ast.Call) and norm_src(c.func) == callee]
-        return cs[0] if len(cs) == 1 else None
-
-    for qn, callee, flags_expr in (('PurePath.match', 'self.globmatch', 'flags | _EXTMATCHBASE'),
-                                   ('Path.rglob', 'self.glob', 'flags | _EXTMATCHBASE')):
-        c = single_call(qn, callee)
-        fi = repo.func('pathlib', qn)
-        ok = c is not None and [norm_src(a) for a in c.args] == ['patterns'] and \
-            _kwargs(c) == {'flags': flags_expr, 'limit': 'limit', 'exclude': 'exclude'}
-        if c is not None and not ok:
-            kw = _kwargs(c)
-            fl = next((k.value for k in c.keywords if k.arg == 'flags'), None)
-            ok = [norm_src(a) for a in c.args] == ['patterns'] and kw.get('limit') == 'limit' and kw.get('exclude') == 'exclude' and \
-                fl is not None and norm_src(fl) in ('flags | _EXTMATCHBASE', '_EXTMATCHBASE | flags')
-        n += 1
-        ctx.ob(rule, f'pathlib:{qn}/delegation', ok, repo.loc('pathlib', fi.node), f'{callee}(patterns, flags={flags_expr}, limit=limit, exclude=exclude)',
-               norm_src(c)[:120] if c is not None else 'no single delegation',
-               witness="PurePath('a/b/x.py').match('*.py') must be right-anchored; rglob('*.py') must recurse")
-    calls = {}
-    for qn in ('PurePath.globmatch', 'PurePath.full_match'):
-        c = single_call(qn, 'glob.globmatch')
-        fi = repo.func('pathlib', qn)
-        ok = c is not None and [norm_src(a) for a in c.args] == ['self._translate_path()', 'patterns'] and \
-            _kwargs(c) == {'flags': 'self._translate_flags(flags)', 'limit': 'limit', 'exclude': 'exclude'}
-        calls[qn] = norm_src(c) if c is not None else None
-        n += 1
-        ctx.ob(rule, f'pathlib:{qn}/delegation', ok, repo.loc('pathlib', fi.node),
-               'glob.globmatch(self._translate_path(), patterns, flags=self._translate_flags(flags), limit=limit, exclude=exclude)',
-               norm_src(c)[:140] if c is not None else 'no single delegation',
-               witness="PurePosixPath('a/b').globmatch('a/*') must equal glob.globmatch('a/b', 'a/*', flags=FORCEUNIX)")
-    ctx.ob(rule, 'pathlib:PurePath.globmatch==full_match', calls.get('PurePath.globmatch') == calls.get('PurePath.full_match') and
-           calls.get('PurePath.globmatch') is not None, repo.loc('pathlib', repo.func('pathlib', 'PurePath.full_match').node),
-           'identical delegation', str(calls.get('PurePath.full_match'))[:100])
-    g = repo.func('pathlib', 'Path.glob')
-    q = fq(g)
-    c = single_call('Path.glob', 'glob.iglob')
-    ok = c is not None and [norm_src(a) for a in c.args] == ['patterns'] and \
-        _kwargs(c) == {'flags': 'flags', 'root_dir': 'str(self)', 'limit': 'limit', 'exclude': 'exclude'}
-    n += 1
-    ctx.ob(rule, 'pathlib:Path.glob/delegation', ok, repo.loc('pathlib', g.node), 'glob.iglob(patterns, flags=flags, root_dir=str(self), limit=limit, exclude=exclude)',
-           norm_src(c)[:140] if c is not None else 'none', witness="Path('d').glob('*') must list d, not the cwd")
-    ys = [y for y in walk_no_nested(g.node) if isinstance(y, ast.Yield)]
-    oky = len(ys) == 1 and norm_src(ys[0].value) == 'self.joinpath(filename)' and q.guarded(ys[0], 'self.is_dir()', 'T')
-    ctx.ob(rule, 'pathlib:Path.glob/yield', oky, repo.loc('pathlib', g.node), 'if self.is_dir(): … yield self.joinpath(filename)', norm_src(ys[0].value) if ys else 'none')
-    # flags expression of Path.glob as a bit-vector function
-    fl_assign = [s for s in walk_no_nested(g.node) if isinstance(s, ast.Assign) and norm_src(s.targets[0]) == 'flags']
-    if len(fl_assign) != 1:
-        raise AnalysisError('Path.glob: flags assignment not found')
-    ev = SymEval(repo, inline=False, watch_calls=True,
-                 call_models={'pathlib:PurePath._translate_flags': lambda fr, n_, a, k: ('TF', a[0])})
-    from .c03 import sub_function
-    pre = [s for s in walk_no_nested(g.node) if isinstance(s, ast.Assign) and norm_src(s.targets[0]) == 'scandotdir']
-    sub = sub_function(g, pre + fl_assign, 'flags')
+    EMB = repo.const(WP, '_EXTMATCHBASE')
     PL, SD, NA = repo.const('glob', '_PATHLIB'), repo.const('glob', 'SCANDOTDIR'), repo.const(WP, '_NOABSOLUTE')
 
+    def fwd_ok(b: dict, p: Any, flags_ok: Any) -> list[str]:
+        bad = []
+        for k in ('patterns', 'limit', 'exclude'):
+            if b.get(k) != Opaque(k):
+                bad.append(f'{k}={b.get(k)!r}')
+        if not flags_ok(b.get('flags'), p):
+            bad.append(f'flags={b.get("flags")!r}')
+        return bad
+
+    for qn, cls, callee, what in (('PurePath.match', 'PurePath', 'pathlib:PurePath.globmatch', 'self.globmatch'),
+                                  ('Path.rglob', 'PosixPath', 'pathlib:Path.glob', 'self.glob')):
+        fi = repo.func('pathlib', qn)
+        ev, paths = api_table(repo, 'pathlib', qn, cls)
+        bad = []
+        for p in paths:
+            cs = p.calls_to(callee)
+            if len(cs) != 1:
+                bad.append(f'{len(cs)} calls of {what}')
+                continue
+            b = bind_call(repo, callee, cs[0][1], cs[0][2])
+            bad += fwd_ok(b, p, lambda v, p_: passes_through(v, 'flags', EMB, decided_bits(p_, 'flags')))
+            if qn.endswith('match'):
+                if not is_result_of(p.ret, callee):
+                    bad.append(f'returns {p.ret!r}')
+            else:
+                ys = p.of('yield')
+                okf = len(ys) == 1 and ((isinstance(ys[0][1], tuple) and ys[0][1][0] == 'from' and is_result_of(ys[0][1][1], callee)) or
+                                        (isinstance(ys[0][1], Opaque) and ys[0][1].tag.startswith(f'elem({callee}(')))
+                if not okf:
+                    bad.append(f'yields {[y[1] for y in ys]}')
+        n += 1
+        ctx.ob(rule, f'pathlib:{qn}/delegation', not bad and bool(paths), repo.loc('pathlib', fi.node),
+               f'{what}(patterns, flags=flags | _EXTMATCHBASE, limit=limit, exclude=exclude), result handed back unchanged',
+               'as expected' if not bad else '; '.join(bad[:3]),
+               witness="PurePath('a/b/x.py').match('*.py') must be right-anchored; rglob('*.py') must recurse")
+    sig = {}
+    for qn in ('PurePath.globmatch', 'PurePath.full_match'):
+        fi = repo.func('pathlib', qn)
+        ev, paths = api_table(repo, 'pathlib', qn, 'PurePath')
+        bad = []
+        for p in paths:
+            cs = p.calls_to('glob:globmatch')
+            if len(cs) != 1:
+                bad.append(f'{len(cs)} calls of glob.globmatch')
+                continue
+            b = bind_call(repo, 'glob:globmatch', cs[0][1], cs[0][2])
+            bad += fwd_ok(b, p, lambda v, p_: isinstance(v, Opaque) and v.tag == 'pathlib:PurePath._translate_flags(bv(flags,val=0x0,known=0x0))')
+            if b.get('filename') != Opaque('pathlib:PurePath._translate_path()'):
+                bad.append(f'filename={b.get("filename")!r}')
+            if set(b) - {'filename', 'patterns', 'flags', 'limit', 'exclude'}:
+                bad.append(f'extra arguments {sorted(set(b) - {"filename", "patterns", "flags", "limit", "exclude"})}')
+            if not is_result_of(p.ret, 'glob:globmatch'):
+                bad.append(f'returns {p.ret!r}')
+        sig[qn] = sorted((str(sorted(p.decisions.items())), repr(p.ret)) for p in paths)
+        n += 1
+        ctx.ob(rule, f'pathlib:{qn}/delegation', not bad and bool(paths), repo.loc('pathlib', fi.node),
+               'glob.globmatch(self._translate_path(), patterns, flags=self._translate_flags(flags), limit=limit, exclude=exclude)',
+               'as expected' if not bad else '; '.join(bad[:3]),
+               witness="PurePosixPath('a/b').globmatch('a/*') must equal glob.globmatch('a/b', 'a/*', flags=FORCEUNIX)")
+    ctx.ob(rule, 'pathlib:PurePath.globmatch==full_match', sig['PurePath.globmatch'] == sig['PurePath.full_match'],
+           repo.loc('pathlib', repo.func('pathlib', 'PurePath.full_match').node), 'identical decision tables and results',
+           'identical' if sig['PurePath.globmatch'] == sig['PurePath.full_match'] else str(sig['PurePath.full_match'])[:100])
+    # ---- Path.glob
+    g = repo.func('pathlib', 'Path.glob')
+
     def tf_model(fr: Any, n_: Any, a: list, k: dict) -> Any:
-        v = a[0]
-        if not isinstance(v, BV) or not v.must_set(NA):
-            return Opaque('TF-without-NOABSOLUTE')
+        v = a[0] if a else k.get('flags')
+        dec = 0
+        for at in fr.ev.decisions:
+            if at.startswith('bit:flags:'):
+                dec |= int(at.rsplit(':', 1)[1], 16)
+        if not passes_through(v, 'flags', NA, dec & ~NA):
+            return Opaque('TF-of-something-else')
         return BV('tf', 0, 0)
-    ev = SymEval(repo, inline=False, call_models={'pathlib:PurePath._translate_flags': tf_model,
-                                                 'pathlib:Path._translate_flags': tf_model})
-    paths = ev.tabulate(sub, {'flags': BV('flags'), 'patterns': Opaque('p')}, Obj(('pathlib', 'PosixPath')))
-    bad = []
+    ev, paths = api_table(repo, 'pathlib', 'Path.glob', 'PosixPath',
+                          call_models={'pathlib:PurePath._translate_flags': tf_model, 'pathlib:Path._translate_flags': tf_model})
+    bad_d, bad_y, bad_f = [], [], []
     for p in paths:
-        v = p.locals.get('flags')
-        sd = p.decisions.get(f'bit:flags:{SD:x}')
-        if not isinstance(v, BV) or v.origin != 'tf':
-            bad.append(f'flags = {v!r}')
+        isdir = p.decisions.get('self.is_dir()')
+        cs = p.calls_to('glob:iglob')
+        ys = p.of('yield')
+        if isdir is not True:
+            if cs or ys or isdir is None:
+                bad_y.append(f'is_dir={isdir}: {len(cs)} iglob call(s), {len(ys)} yield(s)')
             continue
-        if not v.must_set(PL):
-            bad.append('_PATHLIB not forced')
-        if sd is True and not v.must_set(SD):
-            bad.append('SCANDOTDIR requested but not re-added')
-        if sd is False and (v.known & SD) and (v.val & SD):
-            bad.append('SCANDOTDIR forced although not requested')
-    ctx.ob(rule, 'pathlib:Path.glob/flags', not bad and len(paths) >= 2, repo.loc('pathlib', fl_assign[0]),
+        if len(cs) != 1:
+            bad_d.append(f'{len(cs)} iglob calls')
+            continue
+        b = bind_call(repo, 'glob:iglob', cs[0][1], cs[0][2])
+        v = b.get('flags')
+        sd = p.decisions.get(f'bit:flags:{SD:x}')
+        bad_d += fwd_ok(b, p, lambda v_, p_: True)
+        if b.get('root_dir') != Opaque('str(self)'):
+            bad_d.append(f'root_dir={b.get("root_dir")!r}')
+        if set(b) - {'patterns', 'flags', 'root_dir', 'limit', 'exclude'}:
+            bad_d.append('extra arguments')
+        if not isinstance(v, BV) or v.origin != 'tf':
+            bad_f.append(f'flags = {v!r}')
+        else:
+            if not v.must_set(PL):
+                bad_f.append('_PATHLIB not forced')
+            if sd is True and not v.must_set(SD):
+                bad_f.append('SCANDOTDIR requested but not re-added')
+            if sd is not True and (v.known & SD) and (v.val & SD):
+                bad_f.append('SCANDOTDIR forced although not requested')
+            if v.known & ~(PL | SD):
+                bad_f.append(f'other bits forced: {v.known & ~(PL | SD):#x}')
+        res = 'glob:iglob('
+        oky = len(ys) == 1 and isinstance(ys[0][1], Opaque) and ys[0][1].tag.startswith(f'self.joinpath(elem({res}') and \
+            ys[0][1].tag.endswith('))') and len(ys[0][3]) == 1 and ys[0][3][0].startswith(f'for:{res}')
+        if not oky:
+            bad_y.append(f'yields {[y[1] for y in ys]}'[:160])
+    n += 1
+    ctx.ob(rule, 'pathlib:Path.glob/delegation', not bad_d and len(paths) >= 2, repo.loc('pathlib', g.node),
+           'glob.iglob(patterns, flags=…, root_dir=str(self), limit=limit, exclude=exclude)', 'as expected' if not bad_d else '; '.join(bad_d[:3]),
+           witness="Path('d').glob('*') must list d, not the cwd")
+    ctx.ob(rule, 'pathlib:Path.glob/yield', not bad_y, repo.loc('pathlib', g.node),
+           'nothing unless self.is_dir(); else yield self.joinpath(x) for each result x', 'as expected' if not bad_y else '; '.join(bad_y[:2]))
+    ctx.ob(rule, 'pathlib:Path.glob/flags', not bad_f and len(paths) >= 3, repo.loc('pathlib', g.node),
            '_translate_flags(flags | _NOABSOLUTE) | _PATHLIB, plus SCANDOTDIR iff the caller set it',
-           f'{len(paths)} paths agree' if not bad else '; '.join(sorted(set(bad))),
+           f'{len(paths)} paths agree' if not bad_f else '; '.join(sorted(set(bad_f))),
            witness="Path('.').glob('/etc/*') must raise ValueError; Path('.').glob(['a','./a']) must not list `a` twice")
     ctx.floor(rule, 'pathlib delegations', n, 5)
 
@@ -199,20 +242,33 @@ def rule_noabsolute(ctx: Ctx, rule: str) -> None:
 
 
 def rule_translate_path(ctx: Ctx, rule: str) -> None:
-    ctx.text(rule, '_translate_path appends the separator iff the object is a concrete Path, non-empty and is_dir()')
+    ctx.text(rule, '_translate_path (decision table): returns str(self) + the flavour separator iff the object is a concrete Path, '
+                   'non-empty and is_dir(); str(self) alone otherwise')
     repo = ctx.repo
     tp = repo.func('pathlib', 'PurePath._translate_path')
-    ifs = [n for n in walk_no_nested(tp.node) if isinstance(n, ast.If) and any(isinstance(s, ast.Assign) and norm_src(s.targets[0]) == 'sep' for s in n.body)]
-    ok = len(ifs) == 1 and equivalent_tests(ifs[0].test, 'isinstance(self, Path) and name and self.is_dir()')
-    ctx.ob(rule, 'pathlib:PurePath._translate_path/guard', ok, repo.loc('pathlib', tp.node), 'isinstance(self, Path) and name and self.is_dir()',
-           norm_src(ifs[0].test) if ifs else 'none', witness="Path('d').globmatch('d/') is True for a directory; PurePath('d').globmatch('d/') is False")
-    rets = [r for r in walk_no_nested(tp.node) if isinstance(r, ast.Return)]
-    okr = len(rets) == 1 and norm_src(rets[0].value) == 'name + sep'
-    nm = [s for s in walk_no_nested(tp.node) if isinstance(s, ast.Assign) and norm_src(s.targets[0]) == 'name']
-    okn = len(nm) == 1 and norm_src(nm[0].value) == 'str(self)'
-    init = [s for s in walk_no_nested(tp.node) if isinstance(s, ast.Assign) and norm_src(s) == "sep = ''"]
-    ctx.ob(rule, 'pathlib:PurePath._translate_path/shape', okr and okn and len(init) == 1, repo.loc('pathlib', tp.node), "sep = ''; name = str(self); return name + sep",
-           f'return={okr} name={okn} init={len(init)}')
+    ev, paths = api_table(repo, 'pathlib', 'PurePath._translate_path', 'PurePath')
+
+    def proj(p: Any) -> Any:
+        if p.raised:
+            return ('raise', p.raised)
+        r = p.ret
+        parts = r.parts if isinstance(r, Tok) else (('{' + r.tag + '}',) if isinstance(r, Opaque) else (r,))
+        return tuple('sep' if x in ('{self.parser.sep}', '{self._flavour.sep}') else x for x in parts)
+
+    def oracle(g: Any) -> Any:
+        if g('isinstance(self, Path)') and g('str(self)') and g('self.is_dir()'):
+            return ('{str(self)}', 'sep')
+        return ('{str(self)}',)
+    ok, why, rows = compare_table(paths, ev.bitnames, oracle, proj, {'isinstance(self, Path)', 'str(self)', 'self.is_dir()', 'util.PY313'},
+                                  where='_translate_path')
+    ctx.count('decision_table_rows', rows)
+    ctx.ob(rule, 'pathlib:PurePath._translate_path/table', ok, repo.loc('pathlib', tp.node),
+           'str(self) + sep iff isinstance(self, Path) and str(self) and self.is_dir(); else str(self)', f'{rows} rows agree' if ok else why[:250],
+           witness="Path('d').globmatch('d/') is True for a directory; PurePath('d').globmatch('d/') is False")
+    sel = [p for p in paths if p.decisions.get('util.PY313') is not None]
+    oks = all(('{self.parser.sep}' in (p.ret.parts if isinstance(p.ret, Tok) else ())) == p.decisions['util.PY313'] for p in sel)
+    ctx.ob(rule, 'pathlib:PurePath._translate_path/flavour', oks, repo.loc('pathlib', tp.node),
+           'self.parser.sep on 3.13+, self._flavour.sep before (or one of them unconditionally)', str(oks))
 
 
 # ================================================================================================ C17
